@@ -263,9 +263,10 @@ class _ConnectionBase:
                 raise BufferTooShort(result.getvalue())
             # Message can fit in dest
             result.seek(0)
-            result.readinto(m[
-                offset // itemsize:(offset + size) // itemsize
-            ])
+            # address the destination in bytes: slicing in items drops the
+            # tail of a message whose size is not a multiple of the item
+            # size and misplaces it for such offsets.
+            result.readinto(m.cast('B')[offset:offset + size])
             return size
 
     def recv(self):
